@@ -13,6 +13,10 @@ only = sys.argv[1:]
 import shutil
 import tempfile
 
+# checks of the code a property depends on (reader, tokenizer), tried when the property's own check stays quiet
+RELATED = {"C01": ["C04", "C13"], "C11": ["C04"], "C03": ["C13"], "C15": ["C13"], "C10": ["C13"], "C06": ["C13", "C12"],
+           "C14": ["C02", "C05"], "C02": ["C13"], "C20": ["C04"], "C09": ["C16"]}
+
 SCR = tempfile.mkdtemp(prefix="seedrepo-", dir="/var/tmp")
 subprocess.run(["git", "-C", "/repo", "worktree", "add", "-q", "--detach", os.path.join(SCR, "repo"), "HEAD"], check=True)
 R = os.path.join(SCR, "repo")
@@ -39,6 +43,15 @@ try:
             viol = [l for l in p.stdout.splitlines() if l.startswith("VIOLATION")]
             res.update({"tests_with_change": t, "demo_rc_with_change_on_current_tree": dm.returncode, "check": pid, "check_rc": p.returncode,
                         "violations": len(viol), "first_clauses": sorted({l.split("clause=")[-1] for l in viol})[:6]})
+            # a change that the property's own check misses may still be caught by the check of the code it touches
+            if p.returncode == 0:
+                for other in RELATED.get(pid, []):
+                    q = subprocess.run([os.path.join(V, "check"), other, "--tier", "quick"], capture_output=True, text=True, cwd=V, env=env)
+                    if q.returncode == 1:
+                        v2 = [l for l in q.stdout.splitlines() if l.startswith("VIOLATION")]
+                        res["also_detected_by"] = other
+                        res["also_clauses"] = sorted({l.split("clause=")[-1] for l in v2})[:4]
+                        break
         round2 = d[3:] in ("c", "d")
         meta = {"id": d, "breaks_property": pid, "property_title": props[pid]["title"],
                 "patch": os.path.basename(patch), "needs_to_manifest": "see notes.md",
@@ -46,9 +59,10 @@ try:
                               "tools/confirm_seed.sh: scratch worktree of the pinned commit") +
                              ": test-suite 150 passed with the change; demo exits 0 without and 1 with it",
                 "ran": "tools/seed_matrix.py: patch applied to a scratch worktree of /repo HEAD, CGSMILES_REPO=<copy> ./check %s --tier quick" % pid,
-                "result": res, "detected": bool(res.get("check_rc") == 1)}
+                "result": res, "detected": bool(res.get("check_rc") == 1),
+                "detected_by_related_check": res.get("also_detected_by")}
         json.dump(meta, open(os.path.join(sd, "meta.json"), "w"), indent=1)
-        print(d, "DETECTED" if meta["detected"] else "missed", res, flush=True)
+        print(d, "DETECTED" if meta["detected"] else ("detected-by-" + res["also_detected_by"] if res.get("also_detected_by") else "missed"), res, flush=True)
 finally:
     subprocess.run(["git", "-C", "/repo", "worktree", "remove", "--force", R])
     shutil.rmtree(SCR, ignore_errors=True)
